@@ -127,7 +127,8 @@ def drive2(pid, tier, seed, only, res, spec, rnd, prog, kinds, lmax, scripts, kn
             tasks = [t for t in tasks if t[0] in sel]
     rnd.shuffle(tasks)
     if len(tasks) > 1500:
-        os.environ['VERIF_M_CROSS_MOD'] = str(max(1, len(tasks) // 150))
+        mod = max(1, len(tasks) // 150)
+        tasks = [(t[0], t[1], t[2], dict(t[3], cross_mod=mod)) for t in tasks]
     t0 = time.time()
     for rs, dt in pool.map(w_task, tasks, chunksize=4):
         results += rs
